@@ -9,38 +9,49 @@ theorem received_append (a b : List Tok) : received (a ++ b) = received a ++ rec
   | nil => rfl
   | cons x r ih => cases x <;> simp [received, ih]
 
-theorem mem_received_catOpt (l : List (Option (List Tok))) (ts : List Tok) (h : catOpt l = some ts) (id : Nat)
-    (hid : id ∈ received ts) : ∃ a, some a ∈ l ∧ id ∈ received a := by
+theorem mem_received_catRes (l : List Res) (ts : List Tok) (h : catRes l = .ok ts) (id : Nat)
+    (hid : id ∈ received ts) : ∃ a, Res.ok a ∈ l ∧ id ∈ received a := by
   induction l generalizing ts with
-  | nil => simp [catOpt] at h; subst h; simp [received] at hid
+  | nil => simp [catRes] at h; subst h; simp [received] at hid
   | cons x r ih =>
     cases x with
-    | none => simp [catOpt] at h
-    | some a =>
-      simp only [catOpt, Option.map_eq_some_iff] at h
-      obtain ⟨rest, hr, rfl⟩ := h
-      rw [received_append, List.mem_append] at hid
-      rcases hid with h1 | h2
-      · exact ⟨a, by simp, h1⟩
-      · obtain ⟨a', hm, hi⟩ := ih rest hr h2
-        exact ⟨a', by simp [hm], hi⟩
+    | diverges => simp [catRes] at h
+    | panicked => simp [catRes] at h
+    | ok a =>
+      simp only [catRes] at h
+      cases hr : catRes r with
+      | diverges => rw [hr] at h; cases h
+      | panicked => rw [hr] at h; cases h
+      | ok rest =>
+        rw [hr] at h
+        cases h
+        rw [received_append, List.mem_append] at hid
+        rcases hid with h1 | h2
+        · exact ⟨a, by simp, h1⟩
+        · obtain ⟨a', hm, hi⟩ := ih rest hr h2
+          exact ⟨a', by simp [hm], hi⟩
 
-theorem catOpt_isSome (l : List (Option (List Tok))) (h : ∀ x ∈ l, x.isSome = true) : (catOpt l).isSome = true := by
+theorem catRes_ne_diverges (l : List Res) (h : ∀ x ∈ l, x ≠ .diverges) : catRes l ≠ .diverges := by
   induction l with
-  | nil => rfl
+  | nil => simp [catRes]
   | cons x r ih =>
+    have hr := ih (fun y hy => h y (by simp [hy]))
+    have hx := h x (by simp)
     cases x with
-    | none => simpa using h none (by simp)
-    | some a =>
-      have := ih (fun y hy => h y (by simp [hy]))
-      simp only [catOpt, Option.isSome_map]
-      exact this
+    | diverges => exact absurd rfl hx
+    | panicked => simp [catRes]
+    | ok a =>
+      simp only [catRes]
+      cases hc : catRes r with
+      | diverges => exact absurd hc hr
+      | panicked => simp
+      | ok b => simp
 
 /-- Every node in what `filterNode` returns — at any depth, including redirect targets — is the root copy or a node
-    whose requirement the player passes. -/
+    whose requirement returned true for the player (not false, and it did not panic). -/
 theorem filter_usable (t : PTree) (perms : List Nat) :
-    ∀ (fuel n : Nat) (ts : List Tok), filter t perms fuel n = some ts →
-      ∀ id ∈ received ts, id = 0 ∨ ∃ nd, t[id - 1]? = some nd ∧ usable perms nd = true := by
+    ∀ (fuel n : Nat) (ts : List Tok), filter t perms fuel n = .ok ts →
+      ∀ id ∈ received ts, id = 0 ∨ ∃ nd, t[id - 1]? = some nd ∧ reqOut perms nd = .allow := by
   intro fuel
   induction fuel with
   | zero => intro n ts h; simp [filter] at h
@@ -49,65 +60,82 @@ theorem filter_usable (t : PTree) (perms : List Nat) :
     simp only [filter] at h
     split at h
     · -- root
-      simp only [Option.map_eq_some_iff] at h
-      obtain ⟨cs, hcs, rfl⟩ := h
-      have hrec : received (Tok.node 0 :: cs ++ [Tok.up]) = 0 :: received cs := by
-        simp [received, received_append]
-      rw [hrec, List.mem_cons] at hid
-      rcases hid with h0 | hin
-      · left; exact h0
-      · obtain ⟨a, hm, hi⟩ := mem_received_catOpt _ cs hcs id hin
-        simp only [List.mem_map] at hm
-        obtain ⟨c, _, hc⟩ := hm
-        exact ih c a hc id hi
+      split at h
+      · rename_i cs hcs
+        cases h
+        have hrec : received (Tok.node 0 :: cs ++ [Tok.up]) = 0 :: received cs := by
+          simp [received, received_append]
+        rw [hrec, List.mem_cons] at hid
+        rcases hid with h0 | hin
+        · left; exact h0
+        · obtain ⟨a, hm, hi⟩ := mem_received_catRes _ cs hcs id hin
+          simp only [List.mem_map] at hm
+          obtain ⟨c, _, hc⟩ := hm
+          exact ih c a hc id hi
+      · rename_i hne
+        exact (hne _ h).elim
     · split at h
       · cases h; simp [received] at hid
       · rename_i nd hnd
         split at h
+        · cases h
         · cases h; simp [received] at hid
-        · rename_i huse
+        · rename_i hallow
           split at h
-          · rename_i r cs hr hcs
-            cases h
-            have hrec : received (Tok.node n :: r ++ cs ++ [Tok.up]) = n :: (received r ++ received cs) := by
-              simp [received, received_append]
-            rw [hrec, List.mem_cons, List.mem_append] at hid
-            rcases hid with h0 | hin
-            · right; exact ⟨nd, by rw [h0]; exact hnd, by simpa using huse⟩
-            · rcases hin with hr' | hc'
-              · -- inside the redirect target's copy
-                split at hr
-                · cases hr; simp [received] at hr'
-                · rename_i tgt _
-                  simp only [Option.map_eq_some_iff] at hr
-                  obtain ⟨r0, hr0, rfl⟩ := hr
-                  split at hr'
-                  · simp [received] at hr'
-                  · simp only [received] at hr'
-                    exact ih tgt r0 hr0 id hr'
-              · obtain ⟨a, hm, hi⟩ := mem_received_catOpt _ cs hcs id hc'
-                simp only [List.mem_map] at hm
-                obtain ⟨c, _, hc⟩ := hm
-                exact ih c a hc id hi
-          · cases h
+          · rename_i r hr
+            split at h
+            · rename_i cs hcs
+              cases h
+              have hrec : received (Tok.node n :: r ++ cs ++ [Tok.up]) = n :: (received r ++ received cs) := by
+                simp [received, received_append]
+              rw [hrec, List.mem_cons, List.mem_append] at hid
+              rcases hid with h0 | hin
+              · right; exact ⟨nd, by rw [h0]; exact hnd, hallow⟩
+              · rcases hin with hr' | hc'
+                · -- inside the redirect target's copy
+                  split at hr
+                  · cases hr; simp [received] at hr'
+                  · rename_i tgt _
+                    split at hr
+                    · rename_i r0 hr0
+                      cases hr
+                      split at hr'
+                      · simp [received] at hr'
+                      · simp only [received] at hr'
+                        exact ih tgt r0 hr0 id hr'
+                    · rename_i hne
+                      exact (hne _ hr).elim
+                · obtain ⟨a, hm, hi⟩ := mem_received_catRes _ cs hcs id hc'
+                  simp only [List.mem_map] at hm
+                  obtain ⟨c, _, hc⟩ := hm
+                  exact ih c a hc id hi
+            · rename_i hne
+              exact (hne _ h).elim
+          · rename_i hne
+            exact (hne _ h).elim
 
-/-- a node the player may not use is dropped together with everything below it -/
-theorem filter_unusable (t : PTree) (perms : List Nat) (fuel n : Nat) (nd : PNode) (hn : n ≠ 0)
-    (hnd : t[n - 1]? = some nd) (hu : usable perms nd = false) : filter t perms (fuel + 1) n = some [] := by
+/-- a node whose requirement returns false is dropped together with everything below it -/
+theorem filter_denied (t : PTree) (perms : List Nat) (fuel n : Nat) (nd : PNode) (hn : n ≠ 0)
+    (hnd : t[n - 1]? = some nd) (hu : reqOut perms nd = .deny) : filter t perms (fuel + 1) n = .ok [] := by
+  simp [filter, hn, hnd, hu]
+
+/-- a node whose requirement panics makes the whole call panic: nothing is returned -/
+theorem filter_panics (t : PTree) (perms : List Nat) (fuel n : Nat) (nd : PNode) (hn : n ≠ 0)
+    (hnd : t[n - 1]? = some nd) (hu : reqOut perms nd = .panic) : filter t perms (fuel + 1) n = .panicked := by
   simp [filter, hn, hnd, hu]
 
 /-- termination: if children and redirect targets have smaller rank, `rank n + 1` fuel is enough -/
 theorem filter_terminates (t : PTree) (perms : List Nat) (rank : Nat → Nat)
     (hchild : ∀ n, ∀ c ∈ childIds t n, rank c < rank n)
     (hred : ∀ n nd tgt, t[n - 1]? = some nd → n ≠ 0 → nd.redirect = some tgt → rank tgt < rank n) :
-    ∀ fuel n, rank n < fuel → (filter t perms fuel n).isSome = true := by
+    ∀ fuel n, rank n < fuel → filter t perms fuel n ≠ .diverges := by
   intro fuel
   induction fuel with
   | zero => intro n h; omega
   | succ fuel ih =>
     intro n hlt
-    have hkids : (catOpt ((childIds t n).map (filter t perms fuel))).isSome = true := by
-      apply catOpt_isSome
+    have hkids : catRes ((childIds t n).map (filter t perms fuel)) ≠ .diverges := by
+      apply catRes_ne_diverges
       intro x hx
       simp only [List.mem_map] at hx
       obtain ⟨c, hc, rfl⟩ := hx
@@ -116,31 +144,26 @@ theorem filter_terminates (t : PTree) (perms : List Nat) (rank : Nat → Nat)
     split
     · rename_i h0
       subst h0
-      simp only [Option.isSome_map]; exact hkids
+      split
+      · simp
+      · exact hkids
     · rename_i h0
       split
-      · rfl
+      · simp
       · rename_i nd hnd
         split
-        · rfl
-        · have hredSome : ∀ r, r = (match nd.redirect with
-              | none => some []
-              | some tgt => (filter t perms fuel tgt).map (fun (r : List Tok) => if r.isEmpty then [] else Tok.redirect :: r)) →
-              r.isSome = true := by
-            intro r hr
-            subst hr
-            split
-            · rfl
+        · simp
+        · simp
+        · split
+          · split
+            · simp
+            · exact hkids
+          · split
+            · simp
             · rename_i tgt htgt
-              simp only [Option.isSome_map]
-              exact ih tgt (by have := hred n nd tgt hnd h0 htgt; omega)
-          split
-          · rfl
-          · rename_i hnot
-            exfalso
-            obtain ⟨cs, hcs⟩ := Option.isSome_iff_exists.mp hkids
-            obtain ⟨r, hr⟩ := Option.isSome_iff_exists.mp (hredSome _ rfl)
-            exact hnot r cs hr hcs
+              split
+              · simp
+              · exact ih tgt (by have := hred n nd tgt hnd h0 htgt; omega)
 
 /-! ### merge -/
 
